@@ -282,8 +282,14 @@ func zvMergeLike(meld bool, id string) {
 		vrt.AssumeSWO(append(append([]int(nil), a1...), a2...)...)
 	}
 	zvAssumeHeap(a1, comp)
-	zvAssumeHeap(a2, comp)
-	h1, h2 := zvHeapOf(a1, comp), zvHeapOf(a2, comp)
+	// the argument heap may be ordered by ANOTHER comparator (built with the opposite one, or
+	// switched by Convert): the result is ordered by the receiver's
+	comp2 := comp
+	if kind < 2 && vrt.Choice(2) == 1 {
+		comp2 = zvComp(1 - kind)
+	}
+	zvAssumeHeap(a2, comp2)
+	h1, h2 := zvHeapOf(a1, comp), zvHeapOf(a2, comp2)
 	p1, p2 := append([]int(nil), a1...), append([]int(nil), a2...)
 	var res *Heap[int]
 	vrt.Assert(!vrt.Try(func() {
